@@ -475,6 +475,27 @@ Definition decode_Frame (b : bytes) : dres Frame :=
   | DPanic => DPanic
   end.
 
+(** FrameReader.Read: the streaming entry point.  io.ReadFull of the 14 header
+    bytes, DecodeHeader, then make([]byte, length) and io.ReadFull of the
+    payload; running out of stream is an io error (class 4), bytes after the
+    frame stay in the stream *)
+Definition err_io : N := 4.
+Definition decode_FrameRead (b : bytes) : dres Frame :=
+  if lenN b <? header_size then DErr err_io else
+  match decode_Header b with
+  | DOk (t, (fl, (len, sid))) =>
+      match takeN len (dropN header_size b) with
+      | Some (p, _) => DOk (t, (fl, (sid, p)))
+      | None => DErr err_io
+      end
+  | DErr c => DErr c
+  | DPanic => DPanic
+  end.
+(** bytes reserved for the payload before any of it has been read *)
+Definition frame_read_alloc (b : bytes) : N :=
+  if lenN b <? header_size then 0 else
+  match decode_Header b with DOk (_, (_, (len, _))) => len | _ => 0 end.
+
 (** * Route prefix helpers used by the flooder *)
 Definition encode_DomainPrefix (s : bytes) : option bytes := Some (n2b (lenN s) :: s).
 Definition decode_DomainPrefix (b : bytes) : bytes :=
@@ -538,6 +559,7 @@ Definition no_enc {T} (_ : T) : option bytes := None.
 
 Definition K_Frame := mkKind Frame Frame encode_Frame decode_Frame (neq *e neq *e neq *e beq).
 Definition K_Header := mkKind unit Header no_enc decode_Header (neq *e neq *e neq *e neq).
+Definition K_FrameRead := mkKind unit Frame no_enc decode_FrameRead (neq *e neq *e neq *e beq).
 Definition K_PeerHello := mkKind PeerHello PeerHello encode_PeerHello (fun b => of_opt (decode_PeerHello b))
   (neq *e beq *e neq *e beq *e bleq).
 Definition K_StreamOpen := mkKind Open Open encode_Open (fun b => of_opt (decode_Open b)) open_eqb.
